@@ -7,9 +7,12 @@ import (
 	"encoding/json"
 	"fmt"
 	"testing"
+	"time"
 
 	"github.com/cenkalti/rain/v2/zzverif/core"
 	"github.com/cenkalti/rain/v2/zzverif/refcodec"
+	"github.com/cenkalti/rain/v2/zzverif/vnet"
+	"github.com/cenkalti/rain/v2/zzverif/vpool"
 )
 
 // C01 — download integrity. Two scripted peers (honest by default) feed a leeching torrent; every
@@ -19,11 +22,14 @@ type c01Arg struct {
 	Layout int  `json:"layout"`
 	Gate   bool `json:"gate"`  // piece writes are held until the explorer releases them
 	Cache1 bool `json:"cache"` // write cache of a single piece
+	Web    bool `json:"web"`   // a web seed (BEP 19) is a second source next to peer p1; p2 stays away
 }
 
 var c01Layouts = []Layout{
 	LayoutSingle(32768, 3*32768+1000),
 	LayoutMulti(32768, 20000, -12768, 40000), // file, BEP-47 pad up to the piece boundary, file
+	LayoutSingle(16384, 6*16384+100),         // 7 single-block pieces: several web seed ranges
+	LayoutMulti(16384, 2*16384, 3*16384+7),   // two files: one web seed request per file
 }
 
 func init() { Register("c01", mkC01) }
@@ -99,10 +105,17 @@ func mkC01() *Scenario {
 	sc := &Scenario{Name: "c01", Horizon: 400}
 	var arg c01Arg
 	var p1, p2 *Peer
+	var ws *WebSeed
 	lastServed := map[string]Req{}
 	sc.Setup = func(w *World) {
 		json.Unmarshal(w.Arg, &arg)
-		g := Gen(c01Layouts[arg.Layout])
+		vpool.Gate = arg.Web
+		lay := c01Layouts[arg.Layout]
+		if arg.Web {
+			lay.Webseeds = []string{"http://10.9.9.9/ws/"}
+			w.Cfg.WebseedRetryInterval = time.Minute
+		}
+		g := Gen(lay)
 		if arg.Cache1 {
 			w.Cfg.WriteCacheSize = int64(g.L.PieceLen)
 		}
@@ -111,6 +124,9 @@ func mkC01() *Scenario {
 		w.Store.GateWrites = arg.Gate
 		p1 = w.NewPeer("p1", "10.0.0.1", 5001)
 		p2 = w.NewPeer("p2", "10.0.0.2", 5002)
+		if arg.Web {
+			ws = w.NewWebSeed("10.9.9.9", g)
+		}
 		connect := func(p *Peer) func(w *World) {
 			return func(w *World) {
 				if err := p.ConnectIn(w.Tor.VerifState().Port, g.InfoHash); err != nil {
@@ -126,6 +142,10 @@ func mkC01() *Scenario {
 				{Label: "connect p1", When: func(w *World) bool { return w.Listening() }, Do: connect(p1)},
 				{Label: "connect p2", When: func(w *World) bool { return w.Listening() }, Do: connect(p2)},
 			},
+		}
+		if arg.Web {
+			o.Script = o.Script[:2]
+			o.EarlyScript = true // p1 joins while the web seed is already streaming
 		}
 		o.Extra = func(w *World) []Action {
 			var a []Action
@@ -179,6 +199,12 @@ func mkC01() *Scenario {
 				a = append(a, Action{Label: "adv:" + p.Name + ":unchoke", Do: func(w *World) { p.Send(refcodec.Simple(refcodec.MsgUnchoke)) }})
 				a = append(a, Action{Label: "adv:" + p.Name + ":disconnect", Do: func(w *World) { p.Close() }})
 			}
+			if ws != nil {
+				a = append(a, Action{Label: "adv:web:corrupt", Do: func(w *World) { ws.SetMode("corrupt"); w.Count("web_corrupt", 1) }})
+				a = append(a, Action{Label: "adv:web:ok", Do: func(w *World) { ws.SetMode("ok") }})
+				a = append(a, Action{Label: "adv:web:500", Do: func(w *World) { ws.SetMode("500") }})
+				a = append(a, Action{Label: "adv:web:drop", Do: func(w *World) { ws.SetMode("drop") }})
+			}
 			for k, op := range w.Store.PendingOps() {
 				k := k
 				a = append(a, Action{Label: "adv:storage-fail:" + op, Do: func(w *World) { w.Store.Release(k, errInjected) }})
@@ -190,55 +216,116 @@ func mkC01() *Scenario {
 		}
 		w.Vars["std"] = o
 	}
-	sc.Actions = StdActions
+	// After the loop has received a failed hash check for a piece from p (only ever after a deviation),
+	// the continuation re-offers p's address and then lets p reconnect while the torrent still downloads.
+	sc.Actions = func(w *World) []Action {
+		acts := StdActions(w)
+		s := w.Tor.VerifState()
+		if s.Status != "Downloading" || !s.HasAcceptor {
+			return acts
+		}
+		for _, p := range []*Peer{p1, p2} {
+			p := p
+			if !c01HashFailed(w, p) || p.Connected() {
+				continue
+			}
+			if w.Vars["reoffer:"+p.Name] == nil {
+				return append([]Action{{Label: "script:re-offer " + p.Name, Do: func(w *World) {
+					w.Vars["reoffer:"+p.Name] = fmt.Sprintf("%s:%d", p.Addr.IP, 6881)
+					addr := w.Vars["reoffer:"+p.Name].(string)
+					w.Launch("AddPeer", func() any { return w.Tor.AddPeer(addr) })
+				}}}, acts...)
+			}
+			if w.Vars["reconnect:"+p.Name] == nil && len(acts) > 0 {
+				return append([]Action{{Label: "script:reconnect " + p.Name, Do: func(w *World) {
+					w.Vars["reconnect:"+p.Name] = true
+					p.ConnectIn(s.Port, w.G.InfoHash)
+				}}}, acts...)
+			}
+		}
+		return acts
+	}
 	sc.Check = func(w *World) {
 		integrityCheck(w, "C01")
-		// I4: a peer whose piece failed the hash check is disconnected and not reused
-		s := w.Tor.VerifState()
 		for _, p := range []*Peer{p1, p2} {
-			banned := false
-			for _, ip := range s.BannedIPs {
-				if ip == p.Addr.IP.String() {
-					banned = true
+			if addr, ok := w.Vars["reoffer:"+p.Name].(string); ok {
+				for _, d := range vnet.W.DialLog() {
+					if d.Addr == addr {
+						w.Failf("C01.banned-dialled", "the client dialled %s, offered again after that peer's piece failed the hash check", d.Addr)
+					}
 				}
+				w.Count("ban_redials_checked", 1)
 			}
-			if banned {
+			if w.Vars["reconnect:"+p.Name] != nil {
+				if p.GotHS {
+					w.Failf("C01.banned-reaccepted", "peer %s, whose piece failed the hash check, reconnected and the client answered the handshake", p.Name)
+				}
+				w.Count("ban_reconnects_checked", 1)
+			}
+		}
+		// I4: a peer whose piece failed the hash check is disconnected and not reused. Who failed is
+		// observed at the loop's input (the piece writer result it received), never read from the ban list.
+		for _, p := range []*Peer{p1, p2} {
+			if c01HashFailed(w, p) {
 				w.Count("bans", 1)
-				if p.Connected() {
+				if p.Connected() && w.Vars["reconnect:"+p.Name] == nil {
 					w.Failf("C01.banned-still-connected", "peer %s supplied a piece that failed the hash check but its connection is still open", p.Name)
 				}
 			}
 		}
 	}
 	sc.Final = func(w *World) {
+		w.Count("piece_buffers_reused", int64(vpool.Reuses))
 		s := w.Tor.VerifState()
-		// after a ban: a reconnect from that IP is closed before any handshake reply, and the address is never dialled
+		// after a hash failure: a reconnect from that IP is closed before any handshake reply, and the
+		// address is not dialled when it is offered again
 		for _, p := range []*Peer{p1, p2} {
-			for _, ip := range s.BannedIPs {
-				if ip == p.Addr.IP.String() && s.HasAcceptor {
-					if err := p.ConnectIn(s.Port, w.G.InfoHash); err == nil {
-						w.drain(20)
-						if p.GotHS || !p.ClosedSeen {
-							w.Failf("C01.banned-reaccepted", "banned peer %s reconnected and the client answered the handshake (got handshake=%v closed=%v)", p.Name, p.GotHS, p.ClosedSeen)
-						}
-						w.Count("ban_reconnects_checked", 1)
-					}
+			if !c01HashFailed(w, p) || !s.HasAcceptor {
+				continue
+			}
+			if w.Vars["reconnect:"+p.Name] != nil {
+				if p.Connected() && !p.ClosedSeen {
+					w.Failf("C01.banned-reaccepted", "peer %s, whose piece failed the hash check, reconnected and the client keeps the connection open", p.Name)
 				}
+				continue
+			}
+			if err := p.ConnectIn(s.Port, w.G.InfoHash); err == nil {
+				w.drain(20)
+				if p.GotHS || !p.ClosedSeen {
+					w.Failf("C01.banned-reaccepted", "peer %s, whose piece failed the hash check, reconnected and the client answered the handshake (got handshake=%v closed=%v)", p.Name, p.GotHS, p.ClosedSeen)
+				}
+				w.Count("ban_reconnects_checked", 1)
 			}
 		}
 		integrityCheck(w, "C01")
 	}
 	sc.Outcome = func(w *World) string {
 		s := w.Tor.VerifState()
-		return fmt.Sprintf("%s/banned=%d", s.Status, len(s.BannedIPs))
+		n := 0
+		for _, p := range []*Peer{p1, p2} {
+			if c01HashFailed(w, p) {
+				n++
+			}
+		}
+		return fmt.Sprintf("%s/hashfailed=%d", s.Status, n)
 	}
 	return sc
+}
+
+// c01HashFailed: did the loop receive a piece-writer result with a failed hash whose source is p?
+func c01HashFailed(w *World, p *Peer) bool {
+	for _, e := range w.Tor.VerifEvents() {
+		if e.Kind == "hashfail" && e.Source == p.Addr.IP.String() {
+			return true
+		}
+	}
+	return false
 }
 
 func TestC01(t *testing.T) {
 	ServeIfWorker(t)
 	rep := core.NewReport("C01", "lab-integrity", "model_checking")
-	rep.Rule = "two scripted peers feeding a leeching torrent on the real event loop; default = honest eager schedule; deviations = corrupt/short/misplaced/duplicate/unrequested/out-of-range block, reordered answers, choke/unchoke, disconnect, held or failing piece write, stop/start, resume tick, younger event before older; all executions with <= bound deviations"
+	rep.Rule = "two scripted peers, or one scripted peer and a scripted web seed, feeding a leeching torrent on the real event loop; buffer pool hands a released buffer out again at once (LIFO); default = honest eager schedule; deviations = corrupt/short/misplaced/duplicate/unrequested/out-of-range block, reordered answers, choke/unchoke, disconnect, held or failing piece write, stop/start, resume tick, younger event before older; all executions with <= bound deviations"
 	rep.Assumptions = []string{"SHA-1 collisions outside the alphabet", "handlers atomic (loop ownership; C20)", "block payload corruption modelled by one flipped byte"}
 	budget := 1
 	var runs []Run
@@ -248,6 +335,11 @@ func TestC01(t *testing.T) {
 		}
 	}
 	runs = append(runs, Run{Scenario: "c01", Arg: c01Arg{Layout: 0, Cache1: true}, Budget: budget, MaxExec: 300000})
+	for _, li := range []int{2, 3} {
+		for _, gate := range []bool{false, true} {
+			runs = append(runs, Run{Scenario: "c01", Arg: c01Arg{Layout: li, Gate: gate, Web: true}, Budget: budget, MaxExec: 300000})
+		}
+	}
 	if core.Thorough() {
 		runs = append(runs, Run{Scenario: "c01", Arg: c01Arg{Layout: 0, Gate: true}, Budget: 2, MaxExec: 400000})
 	}
